@@ -9,7 +9,8 @@ clean <cons 0|1> <shard> <root d|m|f|b> <nNodes> {node} <nSteps> {step}
 node   := <namehex> (D | L | J | A <shard> <logId> <start> <end> <count> <n> {entry})
 entry  := <typehex> <ctxhex> <ts> <eid> <n> {<keyhex> <value>}
 value  := n | t | f | i<int> | d<hex16> | T<int> | s<hex> | B<hex>
-step   := <nFiles> {file} (C|P|M) <arg>   -- cleanup_up_to / archive_logs_up_to / archive_log
+step   := <nFiles> {file} (C|P|M) <arg> <nWriteFaults> {logId}
+          -- cleanup_up_to / archive_logs_up_to / archive_log; ids whose archive data write fails
 file   := <namehex> (r|u) (d|k) <nLines> {line}
 line   := b | g | e <rawentry>          -- rawentry = entry with jvalues
 jvalue := n | t | f | i<int> | d<hex16> | s<hex> | c<hex>
@@ -170,7 +171,7 @@ def pNode : P (Name × Node) := do
 /-- `C` cleanup_up_to, `P` archive_logs_up_to, `M` archive_log -/
 inductive OpKind | clean | pass | one
 
-def pStep : P (Step DLine × OpKind) := do
+def pStep : P (Step DLine × OpKind × List Nat) := do
   let n ← pNat
   let files ← rep n pFile
   let k ← (do
@@ -180,7 +181,9 @@ def pStep : P (Step DLine × OpKind) := do
     | "M" => pure OpKind.one
     | _ => failure : P OpKind)
   let bound ← pNat
-  pure ({ add := files, bound := bound }, k)
+  let nf ← pNat
+  let wf ← rep nf pNat
+  pure ({ add := files, bound := bound }, k, wf)
 
 /-! rendering -/
 
@@ -245,18 +248,20 @@ def runClean : P String := do
   let init : List (WalFile DLine) × ArchFs := ([], { root := root, nodes := nodes })
   let (_, outs) := steps.foldl (fun (acc : (List (WalFile DLine) × ArchFs) × List String) sk =>
     let s := sk.1
-    match sk.2 with
+    -- log ids whose archive data write fails in this step (file-size limit below the archive's size)
+    let fails : Nat → Fault := fun id => if sk.2.2.contains id then Fault.write else Fault.none
+    match sk.2.1 with
     | .clean =>
-      let st := runStep (cons == 1) dparser (fun _ => false) shard acc.1 s
+      let st := runStep (cons == 1) dparser fails shard acc.1 s
       (st, ("res=- " ++ rObs st.1 st.2) :: acc.2)
     | .pass =>
       let wal := addFiles acc.1.1 s.add
-      let r := archivePass dparser (fun _ => false) shard s.bound wal wal acc.1.2
+      let r := archivePass dparser fails shard s.bound wal wal acc.1.2
       let oks := (r.1.filter id).length
       ((wal, r.2), (s!"res={oks}:{r.1.length - oks} " ++ rObs wal r.2) :: acc.2)
     | .one =>
       let wal := addFiles acc.1.1 s.add
-      let r := archiveLog dparser (fun _ => false) shard wal acc.1.2 s.bound
+      let r := archiveLog dparser fails shard wal acc.1.2 s.bound
       ((wal, r.2), ((if r.1 then "res=ok " else "res=err ") ++ rObs wal r.2) :: acc.2)) (init, [])
   pure (" ".intercalate outs.reverse)
 
